@@ -52,6 +52,21 @@ fn main() {
 			}
 			code
 		}
+		Some("show") => {
+			// run one seed and print its event log (first / last N lines)
+			let prop = args.get(2).expect("property id");
+			let scen_name = args.get(3).expect("scenario");
+			let seed: u64 = args.get(4).expect("seed").parse().unwrap();
+			let c = checks.iter().find(|c| c.prop == prop).expect("check");
+			let scen = c.scens.iter().find(|s| s.name == scen_name).expect("scenario");
+			let empty = std::collections::BTreeMap::new();
+			let a = search::run_scen(scen, seed, None, false, &empty, true);
+			for l in a.log.iter().filter(|l| !l.contains("] run ")) {
+				println!("{l}");
+			}
+			println!("end={:?} steps={}", a.end, a.steps);
+			0
+		}
 		Some("list") => {
 			for c in &checks {
 				println!("{} {} scenarios={:?}", c.prop, c.level, c.scens.iter().map(|s| s.name).collect::<Vec<_>>());
